@@ -128,8 +128,16 @@ def check_history_discipline(ck, P, rid):
             if not st:
                 continue
             tagged = any(m in ("mark_msg_sent", "mark_msg_remote") for x in st[0].children[1].walk() for m in x.macros)
-            inst = "tagged-push@ScheduleNewEvent:%s" % ("remote" if any("mark_msg_remote" in x.macros for x in st[0].children[1].walk()) else "local")
-            if tagged:
+            is_remote_tag = any("mark_msg_remote" in x.macros for x in st[0].children[1].walk())
+            inst = "tagged-push@ScheduleNewEvent:%s" % ("remote" if is_remote_tag else "local")
+            # the tag must say where the message went: remote tag on the path through the MPI send, local tag on the path through the queue
+            first = next(x for x in s.walk() if x.id in f.cfg.pos)
+            via_mpi = any(f.cfg.dominates(c, first) for c in f.calls("mpi_remote_msg_send"))
+            via_queue = any(f.cfg.dominates(c, first) for c in f.calls("msg_queue_insert"))
+            if tagged and via_mpi != via_queue and is_remote_tag != via_mpi:
+                ck.violated(rid, inst, s.where, "a message sent %s is recorded with the %s tag: on rollback it is cancelled through the wrong path (a flag RMW on a buffer MPI owns, or an anti-message for a local event)" % (
+                    "to another rank" if via_mpi else "through the local queue", "remote" if is_remote_tag else "local"), cfg)
+            elif tagged:
                 ck.holds(rid, inst, s.where, "sent message recorded with its tag", cfg)
             else:
                 ck.violated(rid, inst, s.where, "a sent message is recorded untagged: rollback would re-execute it as if the LP had processed it", cfg)
